@@ -132,6 +132,9 @@ def _parse_documented_type(type_: str, context: Dict[str, Any], err: str) -> Any
     pedantic.exceptions.PedanticDocstringException: Documented type "MyClas" was not found. Maybe you meant one of the following: ['MyClass', 'MyClub']
     """
 
+    if type_ is None:
+        raise PedanticDocstringException(f'{err}The documented type of a parameter is missing. Use "name (type): description".')
+
     if 'typing.' in type_:
         raise PedanticDocstringException(
             f'{err}Do not use "typing." in docstring. Please replace "{type_}" with '
